@@ -22,7 +22,7 @@ try:
     print('twins', len(bv['twins']), 'vacuous', bv['vacuous_twins'])
     slow = sorted(((x['time_us'] or 0, n) for n, x in v['functions'].items()), reverse=True)[:8]
     print('slowest:', [(n.split('::')[-1], t // 1000) for t, n in slow])
-    bad = [n for n, x in v['functions'].items() if not x['success'] and not n.endswith('__reach')]
+    bad = [n for n, x in v['functions'].items() if not x['success'] and 'reach__' not in n]
     print('failed fns:', bad)
 finally:
     sc.cleanup()
